@@ -258,6 +258,33 @@ def check_paths(shape, res):
       bad(f'override-changed-something-else/{_keyclass(p)}',
           f'{p!r}: got {target!r} expected {twin!r}')
   res.outcomes[f'paths:{min(len(exp), 6)}'] += 1
+  # history: print, mutate a container in place so that it now holds a
+  # Buildable, print again
+  objs = shapes.materialize(shape, _KK, LEAVES)
+  root = objs[-1]
+  printing.as_dict_flattened(root)
+  mutated = False
+  for o in objs[:-1]:
+    if type(o) is list and not contains_buildable(o):
+      o.append(fdl.Config(N.node_b, x='added'))
+      mutated = True
+    elif type(o) is dict and not contains_buildable(o):
+      o['added'] = fdl.Config(N.node_b, x='added')
+      mutated = True
+  if mutated:
+    res.transitions += 1
+    exp2 = {p for p, _, _ in expected_leaves(root)}
+    try:
+      flat2 = printing.as_dict_flattened(root)
+      got2 = set()
+      for p in flat2:
+        got2.add(spec_of(utils.parse_path(p), root)[0])
+    except Exception as e:  # pylint: disable=broad-except
+      return bad('second-print-after-mutation-raises', repr(e))
+    if got2 != exp2:
+      return bad('second-print-after-in-place-mutation',
+                 f'after adding a Buildable to a container: printed '
+                 f'{sorted(flat2)} expected leaves {sorted(exp2, key=repr)}')
 
 
 def _keyclass(p):
@@ -286,6 +313,7 @@ def directives():
         'config:base', 'config:base2(n=2)', serialized_base(),
         'set:x=1', 'set:x=2', 'set:y.x=5', "set:y.x='s'",
         'fiddler:f1', 'fiddler:f2(k=3)', 'fiddler:f3(items=[1, (2,)])',
+        'config:base3(items=[1, 2])', 'set:y.y[0]=9',
     ]
   return DIRECTIVES
 
@@ -306,6 +334,8 @@ def reference(seq):
         cfg = flagmod.base2(5, 'ser')
       elif expr == 'base':
         cfg = flagmod.base()
+      elif expr.startswith('base3'):
+        cfg = flagmod.base3(items=[1, 2])
       else:
         cfg = flagmod.base2(n=2)
       continue
@@ -317,6 +347,8 @@ def reference(seq):
       try:
         if path == 'x':
           cfg.x = val
+        elif path == 'y.y[0]':
+          cfg.y.y[0] = val
         else:
           cfg.y.x = val
       except Exception as e:  # pylint: disable=broad-except
@@ -366,7 +398,7 @@ def run_flags(k, b, res):
         continue
       # prune: sequences whose first directive is not a base are all alike;
       # keep only the length-1/2 representatives of those
-      if n > 2 and seq_i[0] > 2:
+      if n > 2 and not D[seq_i[0]].startswith('config'):
         continue
       seq = [D[i] for i in seq_i]
       try:
